@@ -1,8 +1,294 @@
-(** C15 -- stub while the correspondence is brought up. *)
-From V.lib Require Import Prelude.
-From V.model Require Import Image.
-From V.proofs Require Import Image_proofs.
+(** C15 -- images are stored once, byte-exact, with the type and size of the actual image.
 
-Theorem C15_stub : True.
-Proof. exact stub_true. Qed.
-Print Assumptions C15_stub.
+    Theorems over model/Image.v.  [H] is the digest function (SHA-1 is not modelled;
+    where a statement needs H to separate blobs it says so), [fl] the rounding of one
+    binary64 operation.  A history is any list of operations (new slide, other
+    relationships on a slide, image addition on a slide as picture / placeholder
+    picture / poster frame or icon, save-and-reopen), run from any state satisfying the
+    invariant; there is no bound on its length or on the number of images or slides. *)
+From Coq Require Import QArith Qabs.
+From V.lib Require Import Prelude.
+From V.model Require Import PackUri Image.
+From V.proofs Require Import Image_proofs.
+From V.gen Require Import GenC15.
+Local Open Scope Z_scope.
+
+(* ------------------------------------------------------------------ the invariant *)
+
+(** part names are unique, no two indexed image parts have the same digest, and the
+    class of every part is the one the part factory selects for its content type (true
+    of any package just loaded, and of the empty store) *)
+Theorem C15_invariant_meaning : forall H st,
+  Inv H st <->
+  NoDup (map p_name (st_parts st)) /\
+  NoDup (map (digest H) (filter visible (st_parts st))) /\
+  Forall (fun p => p_cls p = ct_is_imagepart (p_ct p)) (st_parts st).
+Proof. exact inv_meaning. Qed.
+Print Assumptions C15_invariant_meaning.
+
+Theorem C15_invariant_kept : forall H fl ops st, Inv H st -> Inv H (final H fl st ops).
+Proof. exact (fun H fl ops st => run_inv H fl ops st). Qed.
+Print Assumptions C15_invariant_kept.
+
+(* ------------------------------------------------------------------ stored once *)
+
+(** If operation number i of a history added image im and reported the part (name, ext,
+    content type), then at the end of the history -- whatever else happened before or
+    after, on whatever slides, including re-opening -- the store has an indexed part of
+    that name, extension and content type whose digest is that of im, and it is the only
+    indexed part with that digest. *)
+Theorem C15_once : forall H fl st ops i im name e ct,
+  Inv H st -> stored_at H fl st ops i im name e ct ->
+  let ps := st_parts (final H fl st ops) in
+  exists p, In p ps /\ visible p = true /\ p_name p = name /\ p_ct p = ct /\ ext (p_name p) = e /\
+            digest H p = H (i_blob im) /\
+            forall q, In q ps -> visible q = true -> digest H q = H (i_blob im) -> q = p.
+Proof. exact once. Qed.
+Print Assumptions C15_once.
+
+(** the single-step form: adding bytes with the same digest again changes nothing and
+    returns the same part *)
+Theorem C15_once_step : forall H ps im im' ps1 p,
+  get_or_add H ps im = Ok (ps1, p) -> H (i_blob im') = H (i_blob im) ->
+  get_or_add H ps1 im' = Ok (ps1, p).
+Proof. exact get_or_add_twice. Qed.
+Print Assumptions C15_once_step.
+
+Theorem C15_same_part : forall H fl st ops i j im im' name e ct name' e' ct',
+  Inv H st ->
+  stored_at H fl st ops i im name e ct -> stored_at H fl st ops j im' name' e' ct' ->
+  H (i_blob im) = H (i_blob im') -> name = name' /\ e = e' /\ ct = ct'.
+Proof. exact same_part. Qed.
+Print Assumptions C15_same_part.
+
+(** different bytes get different parts under different names, provided the digest
+    separates them *)
+Theorem C15_distinct : forall H fl st ops i j im im' name e ct name' e' ct',
+  Inv H st ->
+  stored_at H fl st ops i im name e ct -> stored_at H fl st ops j im' name' e' ct' ->
+  i_blob im <> i_blob im' -> (H (i_blob im) = H (i_blob im') -> i_blob im = i_blob im') ->
+  name <> name'.
+Proof. exact (fun H fl st ops i j im im' name e ct name' e' ct' I S1 S2 Hb Hsep =>
+               distinct H fl st ops i j im im' name e ct name' e' ct' I S1 S2 (fun E => Hb (Hsep E))). Qed.
+Print Assumptions C15_distinct.
+
+(** the stored bytes are the bytes given (H separating them from any other blob) *)
+Theorem C15_bytes : forall H fl st ops i im name e ct,
+  Inv H st -> stored_at H fl st ops i im name e ct ->
+  (forall b, H b = H (i_blob im) -> b = i_blob im) ->
+  exists p, In p (st_parts (final H fl st ops)) /\ p_name p = name /\ p_blob p = i_blob im.
+Proof. exact bytes. Qed.
+Print Assumptions C15_bytes.
+
+(** a newly created part holds exactly the bytes given, under a name no reachable part
+    has, with the extension and content type the tables give for the Pillow format *)
+Theorem C15_new_part : forall H ps im ps' p,
+  get_or_add H ps im = Ok (ps', p) -> find_by_digest H (H (i_blob im)) ps = None ->
+  p_blob p = i_blob im /\ ~ In (p_name p) (map p_name ps) /\
+  exists e, image_ext (i_meta im) = Ok e /\ ext (p_name p) = e /\
+            assoc e image_content_types = Some (p_ct p).
+Proof. exact new_part_type. Qed.
+Print Assumptions C15_new_part.
+
+(** nothing that was in the store is changed or lost by any history *)
+Theorem C15_preserved : forall H fl st ops q,
+  Inv H st -> In q (st_parts st) -> In q (st_parts (final H fl st ops)).
+Proof. exact preserved. Qed.
+Print Assumptions C15_preserved.
+
+(** the relationship a picture uses targets the part that holds its image *)
+Theorem C15_rel_targets_part : forall H fl st s im u st' name rid e ct a b,
+  step H fl st (OImage s im u) = (st', Ok (OutImg name rid e ct a b)) ->
+  exists rs', nth_error (st_slides st') s = Some rs' /\ In (rid, Some name) rs'.
+Proof. exact rel_targets_part. Qed.
+Print Assumptions C15_rel_targets_part.
+
+(* ------------------------------------------------------------------ save and re-open *)
+
+(** save + load returns names, content types and bytes unchanged (C01) and chooses each
+    part's class from its content type: under the invariant that is the identity on the
+    store, so the digest index rebuilt after re-opening answers every query as before *)
+Theorem C15_reopen : forall H fl st, Inv H st ->
+  step H fl st OReload = (st, Ok OutUnit) /\
+  forall d, find_by_digest H d (map reload_part (st_parts st)) = find_by_digest H d (st_parts st).
+Proof. exact reopen. Qed.
+Print Assumptions C15_reopen.
+
+Theorem C15_reopen_new_part : forall ps im p, new_image_part ps im = Ok p -> reload_part p = p.
+Proof. exact reopen_new. Qed.
+Print Assumptions C15_reopen_new_part.
+
+(* ------------------------------------------------------------------ tables (instance, regenerated each run) *)
+
+Theorem C15_no_unmodelled : n_unmodelled = 0%nat.
+Proof. exact (eq_refl 0%nat). Qed.
+Print Assumptions C15_no_unmodelled.
+
+(** every extension the Pillow-format map yields has an entry in image_content_types;
+    that (extension, content type) pair is a row of default_content_types and the only
+    row for that extension; the content type is mapped to ImagePart *)
+Theorem C15_tables : forall fmt e, assoc fmt gen_ext_map = Some e ->
+  exists ct, assoc e gen_image_content_types = Some ct /\
+             In (e, ct) gen_default_content_types /\
+             (forall ct', In (e, ct') gen_default_content_types -> ct' = ct) /\
+             In ct gen_imagepart_cts.
+Proof. exact (tables_ok_sound gen_ext_map gen_image_content_types gen_default_content_types
+                gen_imagepart_cts (eq_refl true)). Qed.
+Print Assumptions C15_tables.
+
+(** the tables the model computes with are the regenerated ones *)
+Theorem C15_tables_match :
+  (forall k, assoc k gen_ext_map = assoc k ext_map) /\
+  (forall k, assoc k gen_image_content_types = assoc k image_content_types) /\
+  (forall ct, mem_str ct gen_imagepart_cts = ct_is_imagepart ct).
+Proof. exact (tables_match_sound gen_ext_map gen_image_content_types gen_imagepart_cts (eq_refl true)). Qed.
+Print Assumptions C15_tables_match.
+
+(* ------------------------------------------------------------------ dpi *)
+
+(** whatever Pillow reports, a normalised dpi lies in 1..2048; the only input that is not
+    normalised is an infinite value, which raises OverflowError *)
+Theorem C15_dpi : forall d,
+  (forall n, int_dpi d = Ok n -> 1 <= n <= 2048) /\
+  (d <> DInf -> exists n, int_dpi d = Ok n) /\
+  (d = DInf -> int_dpi d = Err OverflowErr).
+Proof. exact (fun d => conj (int_dpi_range d) (conj (int_dpi_total d) (fun E => f_equal int_dpi E))). Qed.
+Print Assumptions C15_dpi.
+
+(** a finite value that rounds (half to even) into 1..2048 is kept, within one half;
+    one that rounds outside becomes 72 *)
+Theorem C15_dpi_value : forall q,
+  (1 <= rhe q <= 2048 -> int_dpi (DQ q) = Ok (rhe q) /\ (Qabs (inject_Z (rhe q) - q) <= 1 # 2)%Q) /\
+  (rhe q < 1 \/ 2048 < rhe q -> int_dpi (DQ q) = Ok 72).
+Proof. exact (fun q => conj (int_dpi_value q) (int_dpi_default q)). Qed.
+Print Assumptions C15_dpi_value.
+
+(* ------------------------------------------------------------------ native size *)
+
+(** the native size is the pixel size at the normalised dpi, rounded down to whole EMU *)
+Theorem C15_native : forall f w h d, 0 <= w -> 0 <= h ->
+  forall cx cy, native_size (Meta f w h d) = Ok (cx, cy) ->
+  exists hd vd, normalize_pil_dpi d = Ok (hd, vd) /\ 1 <= hd <= 2048 /\ 1 <= vd <= 2048 /\
+    cx * hd <= 914400 * w < (cx + 1) * hd /\ cy * vd <= 914400 * h < (cy + 1) * vd.
+Proof. exact native_size_spec. Qed.
+Print Assumptions C15_native.
+
+Theorem C15_native_default : forall f w h,
+  native_size (Meta f w h PNoTuple) = Ok (12700 * w, 12700 * h).
+Proof. exact native_size_default. Qed.
+Print Assumptions C15_native_default.
+
+(* ------------------------------------------------------------------ scale *)
+
+Theorem C15_scale_none : forall fl icx icy cx cy, truthy cx = false -> truthy cy = false ->
+  scale fl icx icy cx cy = Ok (icx, icy).
+Proof. exact scale_falsy. Qed.
+Print Assumptions C15_scale_none.
+
+Theorem C15_scale_both : forall fl icx icy x y, x <> 0 -> y <> 0 ->
+  scale fl icx icy (Some x) (Some y) = Ok (x, y).
+Proof. exact scale_both. Qed.
+Print Assumptions C15_scale_both.
+
+(** the falsy edge: a zero width or height is treated exactly as an absent one *)
+Theorem C15_scale_zero_is_none : forall fl icx icy o,
+  scale fl icx icy (Some 0) o = scale fl icx icy None o /\
+  scale fl icx icy o (Some 0) = scale fl icx icy o None.
+Proof. exact scale_zero_is_none. Qed.
+Print Assumptions C15_scale_zero_is_none.
+
+(** one dimension given: the other preserves the aspect ratio within rounding, for any
+    rounding operator with relative error at most 2^-53 that is exact on integers up to
+    2^53 (the premises on fl are part of the statement) *)
+Theorem C15_scale : forall fl : Q -> Q,
+  (forall p q, (p == q)%Q -> (fl p == fl q)%Q) ->
+  (forall q, (Qabs (fl q - q) <= Qabs q * eps53)%Q) ->
+  (forall z, small z -> (fl (inject_Z z) == inject_Z z)%Q) ->
+  forall icx icy, small icx -> small icy ->
+  (forall x cy, x <> 0 -> truthy cy = false -> icx <> 0 -> small x ->
+     exists y, scale fl icx icy (Some x) cy = Ok (x, y) /\
+       (Qabs (inject_Z y * inject_Z icx - inject_Z x * inject_Z icy)
+        <= Qabs (inject_Z icx) * (1 # 2) + Qabs (inject_Z x * inject_Z icy) * (3 * eps53))%Q) /\
+  (forall y cx, y <> 0 -> truthy cx = false -> icy <> 0 -> small y ->
+     exists x, scale fl icx icy cx (Some y) = Ok (x, y) /\
+       (Qabs (inject_Z x * inject_Z icy - inject_Z y * inject_Z icx)
+        <= Qabs (inject_Z icy) * (1 # 2) + Qabs (inject_Z y * inject_Z icx) * (3 * eps53))%Q).
+Proof. exact scale_one_given. Qed.
+Print Assumptions C15_scale.
+
+(* ------------------------------------------------------------------ non-vacuity *)
+
+(** the empty store and a store shaped like the default template (a thumbnail image part
+    that no image relationship reaches) satisfy the invariant *)
+Example C15_ex_inv_empty : forall H, Inv H empty_state.
+Proof. exact inv_empty. Qed.
+
+Definition ex_png : image :=
+  mkImage [137; 80; 78; 71; 1]%N (Meta (Some [80; 78; 71]%N) 7 5 PNoTuple).
+Definition ex_jpg : image :=
+  mkImage [255; 216; 255; 2]%N (Meta (Some [74; 80; 69; 71]%N) 3 2 (PTuple (DQ (300 # 1)) (DQ (301 # 2)))).
+Definition ex_ops : list op :=
+  [OAddSlide; OImage 0 ex_png (UPicture None None); OAddSlide; OImage 1 ex_jpg (UPicture (Some 914400) None);
+   OImage 1 ex_png (UPicture None (Some 0)); OReload; OImage 0 ex_png URelOnly; OImage 0 ex_jpg (UPicture (Some 3) (Some 4))].
+
+(** one concrete history (digest = the bytes, fl = fl64): the PNG added three times on two
+    slides with a re-open in between is one part, the JPEG another; names, rIds, types
+    and sizes as python-pptx gives them *)
+Example C15_ex_history :
+  snd (run (fun b => b) fl64 empty_state ex_ops) =
+  [ Ok OutUnit;
+    Ok (OutImg (image_partname 1 [112; 110; 103]%N) 2 [112; 110; 103]%N
+          [105; 109; 97; 103; 101; 47; 112; 110; 103]%N 88900 63500);
+    Ok OutUnit;
+    Ok (OutImg (image_partname 2 [106; 112; 103]%N) 2 [106; 112; 103]%N
+          [105; 109; 97; 103; 101; 47; 106; 112; 101; 103]%N 914400 1219200);
+    Ok (OutImg (image_partname 1 [112; 110; 103]%N) 3 [112; 110; 103]%N
+          [105; 109; 97; 103; 101; 47; 112; 110; 103]%N 88900 63500);
+    Ok OutUnit;
+    Ok (OutImg (image_partname 1 [112; 110; 103]%N) 2 [112; 110; 103]%N
+          [105; 109; 97; 103; 101; 47; 112; 110; 103]%N 0 0);
+    Ok (OutImg (image_partname 2 [106; 112; 103]%N) 3 [106; 112; 103]%N
+          [105; 109; 97; 103; 101; 47; 106; 112; 101; 103]%N 3 4) ]
+  /\ length (st_parts (final (fun b => b) fl64 empty_state ex_ops)) = 2%nat.
+Proof. vm_compute. split; reflexivity. Qed.
+
+(** so the hypotheses of C15_once / C15_same_part / C15_distinct are met *)
+Example C15_ex_stored_at :
+  stored_at (fun b => b) fl64 empty_state ex_ops 1 ex_png (image_partname 1 [112; 110; 103]%N)
+    [112; 110; 103]%N [105; 109; 97; 103; 101; 47; 112; 110; 103]%N /\
+  stored_at (fun b => b) fl64 empty_state ex_ops 6 ex_png (image_partname 1 [112; 110; 103]%N)
+    [112; 110; 103]%N [105; 109; 97; 103; 101; 47; 112; 110; 103]%N /\
+  stored_at (fun b => b) fl64 empty_state ex_ops 3 ex_jpg (image_partname 2 [106; 112; 103]%N)
+    [106; 112; 103]%N [105; 109; 97; 103; 101; 47; 106; 112; 101; 103]%N.
+Proof.
+  split; [|split]; unfold stored_at; do 5 eexists; (split; [vm_compute; reflexivity|vm_compute; reflexivity]).
+Qed.
+
+Example C15_ex_dpi :
+  int_dpi (DQ (72009 # 1000)) = Ok 72 /\ int_dpi (DQ 0) = Ok 72 /\ int_dpi (DQ (5 # 2)) = Ok 2 /\
+  int_dpi (DQ (7 # 2)) = Ok 4 /\ int_dpi (DQ (4097 # 2)) = Ok 2048 /\ int_dpi (DQ (4099 # 2)) = Ok 72 /\
+  int_dpi (DQ (1 # 2)) = Ok 72 /\ int_dpi (DQ (3 # 2)) = Ok 2 /\
+  int_dpi DNan = Ok 72 /\ int_dpi DNonNum = Ok 72 /\ int_dpi DInf = Err OverflowErr.
+Proof. vm_compute. repeat split. Qed.
+
+Example C15_ex_native :
+  native_size (Meta None 7 5 PNoTuple) = Ok (88900, 63500) /\
+  native_size (Meta None 3 2 (PTuple (DQ (300 # 1)) (DQ (301 # 2)))) = Ok (9144, 12192) /\
+  native_size (Meta None 1 1 (PTuple (DQ (2048 # 1)) (DQ 1))) = Ok (446, 914400).
+Proof. vm_compute. repeat split. Qed.
+
+Example C15_ex_scale :
+  scale fl64 88900 63500 (Some 914400) None = Ok (914400, 653143) /\
+  scale fl64 88900 63500 None (Some 914400) = Ok (1280160, 914400) /\
+  scale fl64 88900 63500 (Some 0) (Some 5) = Ok (7, 5) /\
+  scale fl64 88900 63500 (Some (-10)) None = Ok (-10, -7) /\
+  scale fl64 0 63500 (Some 5) None = Err OtherErr /\
+  small 914400 /\ small 88900.
+Proof. vm_compute. repeat split; discriminate. Qed.
+
+(** the premises of C15_scale are satisfiable *)
+Example C15_ex_fl_premises :
+  (forall p q, (p == q)%Q -> ((fun x => x) p == (fun x => x) q)%Q) /\
+  (forall q, (Qabs ((fun x => x) q - q) <= Qabs q * eps53)%Q) /\
+  (forall z, small z -> ((fun x : Q => x) (inject_Z z) == inject_Z z)%Q).
+Proof. exact fl_hyps_consistent. Qed.
